@@ -62,6 +62,7 @@ type HeapEnv struct {
 	te      *TypeEnv
 	nepoch  int
 	locSort map[string]string
+	record  map[string]string // when non-nil: locations read are recorded (footprints of abstract predicates)
 }
 
 func newHeapEnv(sc *Script, te *TypeEnv) *HeapEnv {
@@ -87,6 +88,9 @@ func (s *State) clone() *State {
 }
 
 func (h *HeapEnv) get(s *State, loc, srt string) string {
+	if h.record != nil {
+		h.record[loc] = srt
+	}
 	if v, ok := s.loc[loc]; ok {
 		return v
 	}
